@@ -102,6 +102,100 @@ func c03Comparisons(repo string, e *emitter, dir, fn, coq string) {
 	fmt.Fprintf(&e.b, "Definition %s : list (Z * Z) := [%s].\n", coq, strings.Join(items, "; "))
 }
 
+// c03LossAccounting reads two structural facts off Eval's AST (eval.go):
+//
+//	eval_counts_loss_once: the main loop (outside the waiter closure) calls
+//	  <x>.countLost() before the assignment `<x>.state = TaskInit` that resubmits a
+//	  lost task, the hand-out sets `<x>.lossUncounted = true`, and the method
+//	  Task.countLost exists: each lost run is counted once, by the runner's waiter
+//	  or by the evaluation about to resubmit the task, whichever comes first.
+//	  false = the former code: only the runner's waiter counts.
+//	eval_bookkeeping_guarded_by_runner: the waiter's switch on task.state that
+//	  maintains consecutiveLost sits under `if runner`.
+func c03LossAccounting(repo string, e *emitter) {
+	p, err := loadPkg(repo, "exec")
+	if err != nil {
+		e.fail("%v", err)
+		return
+	}
+	fd := p.findFunc("Eval")
+	if fd == nil || fd.Body == nil {
+		e.fail("function exec.Eval not found")
+		return
+	}
+	isSel := func(x ast.Expr, name string) bool {
+		sel, ok := x.(*ast.SelectorExpr)
+		return ok && sel.Sel.Name == name
+	}
+	isIdent := func(x ast.Expr, name string) bool {
+		id, ok := x.(*ast.Ident)
+		return ok && id.Name == name
+	}
+	var callPos, resetPos token.Pos
+	setsFlag := false
+	// main loop only: do not descend into function literals
+	ast.Inspect(fd.Body, func(n ast.Node) bool {
+		switch n := n.(type) {
+		case *ast.FuncLit:
+			return false
+		case *ast.CallExpr:
+			if isSel(n.Fun, "countLost") && callPos == token.NoPos {
+				callPos = n.Pos()
+			}
+		case *ast.AssignStmt:
+			if len(n.Lhs) == 1 && len(n.Rhs) == 1 {
+				if isSel(n.Lhs[0], "state") && isIdent(n.Rhs[0], "TaskInit") && resetPos == token.NoPos {
+					resetPos = n.Pos()
+				}
+				if isSel(n.Lhs[0], "lossUncounted") && isIdent(n.Rhs[0], "true") {
+					setsFlag = true
+				}
+			}
+		}
+		return true
+	})
+	once := callPos != token.NoPos && resetPos != token.NoPos && callPos < resetPos && setsFlag &&
+		p.findFunc("Task.countLost") != nil
+	// the bookkeeping switch inside the waiter closure
+	guarded := false
+	var walk func(n ast.Node, underRunner bool)
+	walk = func(n ast.Node, underRunner bool) {
+		ast.Inspect(n, func(m ast.Node) bool {
+			switch m := m.(type) {
+			case *ast.IfStmt:
+				if m == n {
+					return true
+				}
+				walk(m.Body, underRunner || isIdent(m.Cond, "runner"))
+				if m.Else != nil {
+					walk(m.Else, underRunner)
+				}
+				return false
+			case *ast.SwitchStmt:
+				if m.Tag != nil && isSel(m.Tag, "state") && underRunner {
+					guarded = true
+				}
+			}
+			return true
+		})
+	}
+	ast.Inspect(fd.Body, func(n ast.Node) bool {
+		if fl, ok := n.(*ast.FuncLit); ok {
+			walk(fl.Body, false)
+			return false
+		}
+		return true
+	})
+	b := func(x bool) string {
+		if x {
+			return "true"
+		}
+		return "false"
+	}
+	fmt.Fprintf(&e.b, "Definition eval_counts_loss_once : bool := %s.\n", b(once))
+	fmt.Fprintf(&e.b, "Definition eval_bookkeeping_guarded_by_runner : bool := %s.\n", b(guarded))
+}
+
 func init() {
 	specs = append(specs, spec{"C03_params.v", func(repo string, e *emitter) {
 		// task.go: TaskInit < TaskWaiting < TaskRunning < TaskOk < TaskErr < TaskLost
@@ -116,5 +210,7 @@ func init() {
 		c03SwitchTables(repo, e, "exec", "Eval", "eval_switches")
 		// eval.go:112,119,131,135,147: state == TaskLost, == TaskInit, < TaskRunning, < TaskOk
 		c03Comparisons(repo, e, "exec", "Eval", "eval_state_cmps")
+		// eval.go: who accounts for the loss of a run (0540c52)
+		c03LossAccounting(repo, e)
 	}})
 }
